@@ -18,11 +18,12 @@ Definition CALL_LEN : Z := 6.
 Inductive site :=
 | SCall (pos addr : Z)            (* `call abs` at .text offset pos: RelocType::kX64AddressEntry, payload = the absolute target *)
 | SAbs (pos target loff : Z)      (* embed_label: 8 bytes at pos, RelocType::kRelToAbs, payload = the label's offset loff inside section `target` *)
-| SExpr (pos t1 o1 t2 o2 size : Z).   (* embed_label_delta across sections: RelocType::kExpression, (section t1 + o1) - (section t2 + o2) as a size-byte value *)
+| SExpr (pos t1 o1 t2 o2 size : Z)
+| SRel (pos addr : Z).            (* `jz abs` (0F 84 rel32) at pos: RelocType::kAbsToRel, rel32 = target - (base + next); no address-table fallback *)   (* embed_label_delta across sections: RelocType::kExpression, (section t1 + o1) - (section t2 + o2) as a size-byte value *)
 
 Definition ABS_LEN : Z := 8.
-Definition site_pos (c : site) : Z := match c with SCall p _ => p | SAbs p _ _ => p | SExpr p _ _ _ _ _ => p end.
-Definition site_len (c : site) : Z := match c with SCall _ _ => CALL_LEN | SAbs _ _ _ => ABS_LEN | SExpr _ _ _ _ _ n => n end.
+Definition site_pos (c : site) : Z := match c with SCall p _ => p | SAbs p _ _ => p | SExpr p _ _ _ _ _ => p | SRel p _ => p end.
+Definition site_len (c : site) : Z := match c with SCall _ _ => CALL_LEN | SAbs _ _ _ => ABS_LEN | SExpr _ _ _ _ _ n => n | SRel _ _ => CALL_LEN end.
 
 Definition site_entry (h : holder) (text_off : Z) (c : site) : rentry :=
   match c with
@@ -37,6 +38,9 @@ Definition site_entry (h : holder) (text_off : Z) (c : site) : rentry :=
     let lp t o := match by_id h t with Some ts => Some (soff ts + o) | None => None end in
     {| e_kind := RExpr (lp t1 o1) (lp t2 o2); e_secoff := text_off; e_off := pos; e_lead := 0; e_region := n;
        e_fmt := sfmt n; e_payload := 0; e_old := 0 |}
+  | SRel pos addr =>
+    {| e_kind := RAbsToRel; e_secoff := text_off; e_off := pos; e_lead := 2; e_region := CALL_LEN;
+       e_fmt := sfmt 4; e_payload := addr; e_old := 0 |}
   end.
 
 (* what relocate_to_base writes for one entry: the value word (little endian) and, for an address-table call, the two
@@ -100,6 +104,9 @@ Definition emit_call_bytes (st : jstate) (a : Z) : jstate :=
   mkJ (update_id (jh st1) 0 (fun s => set_sizes s (sbsize s + CALL_LEN) (svsize s) (sdata s ++ CALL_BYTES))) (jtab st1) (jaddrs st1).
 
 (* embed_label into .text: 8 zero bytes, patched by relocation *)
+Definition JZ_BYTES : list Z := [15; 132; 0; 0; 0; 0].
+Definition emit_code_bytes (st : jstate) (bytes : list Z) : jstate :=
+  mkJ (update_id (jh st) 0 (fun s => set_sizes s (sbsize s + Z.of_nat (length bytes)) (svsize s) (sdata s ++ bytes))) (jtab st) (jaddrs st).
 Definition emit_zero_bytes (st : jstate) (n : Z) : jstate :=
   mkJ (update_id (jh st) 0 (fun s => set_sizes s (sbsize s + n) (svsize s) (sdata s ++ zeros n))) (jtab st) (jaddrs st).
 Definition emit_abs_bytes (st : jstate) : jstate := emit_zero_bytes st ABS_LEN.
